@@ -3196,7 +3196,13 @@ fintEvalBCall(DataObj retDataObj)
 	case FOAM_BVal_Halt:
 
 		(void)fintEval(&expr1);
-		fintWhere(0);
+		{
+			/* Stack trace sent to stderr */
+			FILE *oldDbOut = dbOut;
+			dbOut = osStderr;
+			fintWhere(0);
+			dbOut = oldDbOut;
+		}
 		switch ((int)expr1.fiSInt) {
 		case FOAM_Halt_BadDependentType:
 		  fiRaiseException((FiWord)"(Aldor error) Bad use of a dependent type");
